@@ -12,6 +12,7 @@ C18 driver.
   the word is a string of two-character events `g?`/`r?` with `?` one of `UBSLOFCVH`; `-` = empty.
 `snap <before counts>` → the model's prediction for the occupancy after any public call whose
   event word could not be observed (rayon worker threads): unchanged.
+`bcfloat <ops>` → `-` (non-dyadic weights: oracle-only case, nothing predicted).
 `caps` → the capacities the proofs were checked against (regenerated from the source).
 `bc <ops>` → one token per op with the container state (`i<k>:<w>` insert, `r<k>` remove,
   `c` clear).
@@ -88,6 +89,8 @@ def step (toks : List String) : String :=
       let b := bcStep acc.1 op
       (b, showBC b :: acc.2)) (BC.new, [])
     if outs.isEmpty then "-" else String.intercalate " " outs.reverse
+  -- oracle-only cases (inexact f64 weights): the model makes no prediction
+  | "bcfloat" :: _ => "-"
   | _ => "bad-op"
 
 def main : IO Unit := Proto.run step
